@@ -257,6 +257,7 @@ type Body struct {
 	iterIdx  map[*ssa.Range]string // map range -> iteration counter region
 	iterInfo map[*ssa.Range]*mapIter
 	depth    int
+	curBlock *ssa.BasicBlock
 }
 
 type mapIter struct {
@@ -581,4 +582,16 @@ func (ft *FT) constVal(c *ssa.Const) *Val {
 		return &Val{T: L(n), Type: t}
 	}
 	return &Val{T: ft.fresh("const", ft.sortOf(t)), Type: t}
+}
+
+// constArray returns an array mapping every index to z.
+func (ft *FT) constArray(idxSort, elemSort string, z *T) *T {
+	if isValueTerm(z) {
+		return A("(as const (Array "+idxSort+" "+elemSort+"))", z)
+	}
+	if idxSort == "Int" {
+		ft.e.sorts.zeroArrays[elemSort] = z
+		return L("zeroarr." + symSafe(elemSort))
+	}
+	return ft.fresh("constarr", "(Array "+idxSort+" "+elemSort+")")
 }
